@@ -9,11 +9,14 @@
     [plain_history]: every tree frontend of the history is on a hostname that
     is non-empty, has no '/', and no leading '.' (exact and wild-card names).
     Section 3c extends the refinement to hostnames whose LEFT-MOST segment is
-    a regex ([/re/.rest], [rplain_history]).  Hostnames with a regex segment
-    elsewhere ([w./re/.rest]) or with several regex segments stay outside the
-    theorems: same trie model, checked by the correspondence runs, the
-    driver's oracle and the black-box tier only (five defects of that feature
-    were found and fixed, see known_findings.json). *)
+    a regex ([/re/.rest], [rplain_history]).  Section 1c characterises, for
+    EVERY key, which hostnames the trie accepts, and proves lookup-after-insert
+    for all of them.  For hostnames with a regex segment that is not the
+    left-most one ([w./re/.rest]) or with several regex segments, the rest
+    (other keys unaffected, remove, the router refinement and the lookup
+    precedence) is NOT proved: same trie model, checked by the correspondence
+    runs, the driver's oracle and the black-box tier only (five defects of
+    that feature were found and fixed, see known_findings.json). *)
 From Coq Require Import List Arith NArith ZArith Lia Permutation.
 From SV Require Import Common.Trie Common.TrieProofs Common.TrieRegex C04.Model C04.Proofs C04.ProofsRegex.
 Import ListNotations.
@@ -134,6 +137,13 @@ Theorem trie_accepts_exactly :
     failed (snd (insert re_ok (root : trie V) key v)) =
     (is_nil key || beq key [DOT] || negb (accept re_ok (ksteps key)))%bool.
 Proof. exact insert_root_accepts. Qed.
+
+(** lookup after insert for EVERY key (no structural hypothesis, any number of
+    regex segments): a successful insert is found again by the exact walk *)
+Theorem trie_lookup_after_insert_any_key :
+  forall V re_ok (t : trie V) key v t',
+    insert re_ok t key v = (t', IOk) -> cgetk V t' key = Some (key, v).
+Proof. exact cgetk_insert_same_all. Qed.
 
 Theorem trie_refused_insert_is_noop :
   forall V re_ok (t : trie V) key v,
